@@ -30,6 +30,10 @@
     get <idx>                            some(v) | none        via=get_reference|access|panicking
     log <flavour>                        flavour ∈ copy|ref|mut|owned, optionally wi=1
     log_access <names> <flavour>         iteration through TensorAccess::from(&t, names)
+    log_view <adaptor> <flavour>         iteration through one view adaptor over the tensor:
+                                         range:<name>.<start>.<len> | mask:<name>.<start>.<len> |
+                                         reverse:<name>   (TensorRange/TensorMask::from_all, clipped;
+                                         TensorReverse::from)
         → accesses=<count> inbounds ## <leaf kind> <imm|mut> len=<stored> offs=<offsets>
         (`rejected` if the access constructor panics)
   Matrix cases (each a case of its own):
@@ -45,6 +49,7 @@
 -/
 import EasyMl.Model.Survivor
 import Driver.Parse
+import Driver.C09
 
 namespace Driver.C10
 open EasyMl EasyMl.Survivor Driver
@@ -219,6 +224,16 @@ def step (s : State) (toks : List String) : State × String :=
     | some t, some m =>
       let src := tensorSource t
       (s, showAccesses "tensor" m t.data.length (tensorAccesses src (prod src.shape + 1)))
+    | _, none => (s, "bad-op")
+  | "log_view" :: ad :: fl :: _ =>
+    match s, flavourMutable fl with
+    | none, some _ => (s, "no-tensor")
+    | some t, some m =>
+      -- the adaptor over the tensor as the C09 model builds it (clipping, rejection of empty views)
+      match Driver.C09.applyTensorAdaptor (t.shape.map (·.1)) (tensorSource t) ad with
+      | none => (s, "rejected")
+      | some (_, src) =>
+        (s, showAccesses "tensor" m t.data.length (tensorAccesses src (prod src.shape + 1)))
     | _, none => (s, "bad-op")
   | "log_access" :: ns :: fl :: _ =>
     match s, flavourMutable fl with
